@@ -93,6 +93,8 @@ Step == /\ l <= NRec
            IN IF e.op = "products"
                 THEN LET why == JudgeProducts(e, cur)
                      IN IF why = "" THEN cur' = cur ELSE Mismatch(l, e, why) /\ cur' = cur
+              ELSE IF e.op = "gap"                                        \* unlogged small calls: must all complete
+                THEN IF ~e.panic /\ e.done = e.n THEN cur' = cur ELSE Mismatch(l, e, "gap-small-call-panicked") /\ cur' = cur
               ELSE IF ~IsStateOp(e)
                 THEN Mismatch(l, e, "unknown-op") /\ cur' = cur
               ELSE IF ~InDomain(e, cur)
